@@ -254,6 +254,41 @@ def rule_r7(ctx):
                  "reply that arrived before the connection was lost is discarded and the receive fails with NNG_ECONNRESET")
 
 
+def rule_r8(ctx):
+    r = ctx.rule("C12.R8", "T3", "the socket's resend time reaches new contexts: where a socket-level option function updates the master "
+                 "context and then copies the value into the socket's default (the one req0_ctx_init reads), the copy is made on "
+                 "the path on which the update succeeded -- a copy made only on failure leaves every context opened later on "
+                 "the old default (60 s, or resending enabled although the socket disabled it)", floor=1)
+    prog = ctx.prog
+    n = 0
+    for f in prog.fns_in("reqrep0/req.c", "survey0/survey.c"):
+        if f.cfg_failed:
+            continue
+        for t in f.assigns():
+            l, e = t.node["lhs"], f.expand(t.node["rhs"])
+            if l.get("k") != "mem" or e is None or e.get("k") != "mem" or l.get("f") != e.get("f"):
+                continue
+            if (last_field(l) or ".").split(".")[0].endswith("_sock") and (last_field(e) or ".").split(".")[0].endswith("_ctx"):
+                n += 1
+                fails = {}
+                for bid, k, atom, val in G.edge_facts(f):
+                    # an edge on which the result of the update is known to be an error
+                    if atom.get("k") == "bin" and atom.get("op") in ("!=", "==") and const_of(atom["rhs"]) == 0 and atom["lhs"].get("k") == "var":
+                        if (atom["op"] == "!=") == bool(val):
+                            fails[bid] = k
+                for b, k in G.nz_edges(f, lambda m: m.get("k") == "var" and m.get("n") == "rv").items():
+                    fails.setdefault(b, k)
+                if fails and G.dominated(f, (t.b, t.i), fails):
+                    ctx.fail(r, f, "%s updated only when the option call failed" % show(l), t.line,
+                             "%s copies %s into %s at line %s only on the edge on which the update returned an error: after a "
+                             "successful nng_socket_set the socket's default keeps its old value, and contexts opened afterwards do "
+                             "not get the configured resend time" % (f.name, show(e), show(l), t.line))
+                else:
+                    r.ob(f, "%s follows %s on the success path" % (show(l), show(e)))
+    if n < 1:
+        raise AnalysisBroken("no socket default shadowing a context option found")
+
+
 def run(ctx):
     ctx.guard(rule_r4)
     ctx.guard(rule_r1)
@@ -266,3 +301,4 @@ def run(ctx):
             rr.id = "C12.R5"
     ctx.guard(rule_r6)
     ctx.guard(rule_r7)
+    ctx.guard(rule_r8)
